@@ -95,6 +95,16 @@ Fixpoint update_loop (fuel : nat) (p : platform) (h : hasher) (input : list N) :
       update_loop fuel' p (with_cs h cs') (skipn (N.to_nat subtree_len) input)
   end.
 
+(* second half of update_with_join: the subtree loop, then the remaining (at most one chunk of)
+   input goes to the chunk state followed by the extra merge *)
+Definition hasher_update_tail (p : platform) (h : hasher) (input : list N) : res hasher :=
+  '(h, input) <- update_loop (S (Nat.div (length input) 1024)) p h input ;;
+  assert! (nlen input <=? rs_CHUNK_LEN) code 1403 ;;
+  if negb (nlen input =? 0) then
+    cs <- cs_update p (h_cs h) input ;;
+    merge_cv_stack p (with_cs h cs) (cs_ctr cs)
+  else Ok h.
+
 (* Hasher::update (update_with_join with the serial join; the scripted / rayon
    joins compute the same function, see Model/Concurrency.v) *)
 Definition hasher_update (p : platform) (h : hasher) (input : list N) : res hasher :=
@@ -124,13 +134,7 @@ Definition hasher_update (p : platform) (h : hasher) (input : list N) : res hash
           else Ok (with_cs h cs, input, true)
         else Ok (h, input, false)) ;;
   let '(h, input, done) := r in
-  if done then Ok h else
-  '(h, input) <- update_loop (S (Nat.div (length input) 1024)) p h input ;;
-  assert! (nlen input <=? rs_CHUNK_LEN) code 1403 ;;
-  if negb (nlen input =? 0) then
-    cs <- cs_update p (h_cs h) input ;;
-    merge_cv_stack p (with_cs h cs) (cs_ctr cs)
-  else Ok h.
+  if done then Ok h else hasher_update_tail p h input.
 
 (* fold the remaining stack entries (top first) into the output *)
 Fixpoint final_fold (p : platform) (h : hasher) (o : output) (stack : list (list N)) : output :=
